@@ -57,13 +57,11 @@ def run_history(job: dict[str, Any]) -> list[dict[str, Any]]:
     for step in job["steps"]:
         space, req, mode = step["space"], step["req"], step["mode"]
         o: dict[str, Any] = {"exc": None}
-        tmp = None
         try:
             lib = libs.get(step["lib"])
             if lib is None:
                 lib = libs[step["lib"]] = B.factory().create(req["algo"])
             kw = B.settings_of(space, req)
-            tmp = kw.pop("__tmpdir__", None)
             ds = B.build_space(space)
             if mode == "exec":
                 from gemseo.algos.optimization_problem import OptimizationProblem
@@ -81,12 +79,8 @@ def run_history(job: dict[str, Any]) -> list[dict[str, Any]]:
             o["int_after"] = bool(ds.enable_integer_variables_normalization)
         except Exception as e:  # noqa: BLE001
             o["exc"] = f"{type(e).__name__}: {e}"[:300]
-        finally:
-            if tmp:
-                import shutil
-
-                shutil.rmtree(tmp, ignore_errors=True)
         out.append(o)
+    B.cleanup_tmp()  # `doe_file` inputs written by this child (it leaves through os._exit: no atexit)
     return out
 
 
